@@ -97,9 +97,14 @@ def classify_count(fx, f, bi, t):
                 if acc is not None and other is not None and _same_var(f, other, acc):
                     for h, body in in_loops:
                         if _loop_tests(f, body, acc):
-                            classes.add("ACCUMULATED")
-                            details.append("added to `%s`, loop continues while it is short of the request"
-                                           % f.name_of_local.get(acc, "_%d" % acc))
+                            early = _early_exits(f, body, acc, tainted)
+                            if early:
+                                classes.add("ABANDONED")
+                                details.append("the retry loop can be left on a short (non-zero) count at %s" % early[0])
+                            else:
+                                classes.add("ACCUMULATED")
+                                details.append("added to `%s`, loop continues while it is short of the request"
+                                               % f.name_of_local.get(acc, "_%d" % acc))
                     if "ACCUMULATED" not in classes:
                         details.append("added to `%s` but no enclosing loop tests it" % f.name_of_local.get(acc, "_%d" % acc))
             elif rv["op"] in CMP:
@@ -115,6 +120,8 @@ def classify_count(fx, f, bi, t):
                         if fails:
                             classes.add("COMPARED")
                             details.append("compared with the requested length; the short branch fails")
+    if "ABANDONED" in classes:
+        classes.discard("ACCUMULATED")
     if not classes:
         classes.add("DROPPED")
         sinks = []
@@ -125,6 +132,60 @@ def classify_count(fx, f, bi, t):
         details.append("the returned count is neither completed, checked nor returned" +
                        (" (it only feeds %s)" % sorted(set(sinks)) if sinks else ""))
     return classes, details
+
+
+def _early_exits(f, body, acc, tainted):
+    """Edges leaving the retry loop other than (a) its own 'accumulator reached the request' test, (b) exits
+    into failure, (c) a test of the count against the constant 0 (end of data).  Anything else abandons the
+    request on a short count."""
+    cfg = cfg_of(f)
+    du = defuse(f)
+    sig = r_err.signal_blocks(f)
+    out = []
+    for u in sorted(body):
+        t = f.blocks[u]["term"]
+        for v in cfg.succ[u]:
+            if v in body:
+                continue
+            # (b) leads only to failure
+            r = cfg.reach([v], blocked=set(sig))
+            if v in sig or not any(x in r for x in cfg.returns):
+                continue
+            if t["k"] != "switch":
+                continue
+            l = op_local(t["op"])
+            pl = op_place(t["op"])
+            # (c) switch directly on the count value with an explicit 0 arm leading out
+            if l in tainted and t.get("op_ty") not in ("bool", "isize"):
+                zero = [tb for val, tb in t["targets"] if int(val) == 0]
+                if zero and v in zero:
+                    continue
+            if t.get("op_ty") == "bool":
+                # (a) / (c): which comparison drives it
+                kind = None
+                for site, whole in du.defs.get(l, []):
+                    if site.is_term:
+                        continue
+                    rv = site.node["rv"]
+                    if rv["k"] == "bin" and rv["op"] in CMP:
+                        la, lb = op_local(rv["a"]), op_local(rv["b"])
+                        if any(x is not None and _same_var(f, x, acc) for x in (la, lb)):
+                            kind = "acc-test"
+                        elif (la in tainted and "c" in rv["b"] and rv["b"]["c"].get("v") == 0) or \
+                                (lb in tainted and "c" in rv["a"] and rv["a"]["c"].get("v") == 0):
+                            kind = "zero-test"
+                        elif la in tainted or lb in tainted:
+                            kind = "short-test"
+                if kind in ("acc-test", "zero-test"):
+                    continue
+                if kind == "short-test":
+                    out.append("%s:%d" % (t["span"]["file"], t["span"]["line"]))
+                    continue
+            # discriminant switches (match arms) and drop flags: the exit itself is judged by where it leads;
+            # an Ok-returning exit not justified above counts only if it is controlled by the count
+            if t.get("op_ty") == "isize":
+                continue
+    return out
 
 
 def _sum_target(f, l):
@@ -214,7 +275,7 @@ def run(fx, cfgname="A", reach=None):
         o = q.names(t)[0] or q.names(t)[1]
         n = counters.get((fp, o), 0)
         counters[(fp, o)] = n + 1
-        ok = "DROPPED" not in cls
+        ok = "DROPPED" not in cls and "ABANDONED" not in cls
         f = fx.fns[fp]
         triv = reach is not None and (fp not in reach and f.root not in reach)
         ob = Ob("R-SHORT", mkkey("R-SHORT", fp, o, n), ok or triv, q.loc_of(t), fp,
